@@ -11,6 +11,7 @@ import (
 	"strconv"
 	"strings"
 	"testing"
+	"time"
 
 	"pgregory.net/rapid"
 )
@@ -547,6 +548,114 @@ func TestVF_C06(t *testing.T) {
 			labels = append(labels, "history>=60")
 		}
 		c.eval(cs, nontrivial, labels...)
+		return msg
+	})
+}
+
+// ---------------------------------------------------------------------------------
+// filter level: a genuine trigger makes the real filter start exactly one transfer (one #ACT: or #fail: line towards the
+// server), everything else none. No download path / upload files are configured and no file dialog exists here, so every
+// started transfer ends by itself with a #fail: line after about 150 ms.
+
+func vfC06FilterRun(cs vfC06Case) (msg string, fired int) {
+	old := windowsEnvironment
+	defer func() { windowsEnvironment = old }()
+	windowsEnvironment = cs.Windows
+	vfCurCase("TestVF_C06Filter", cs)
+	sess := vfNewSession(vfSessOpts{})
+	defer sess.close()
+	model := &vfIDModel{}
+	countLines := func() int {
+		b := sess.shellIn.bytes()
+		return bytes.Count(b, []byte("#ACT:")) + bytes.Count(b, []byte("#fail:")) + bytes.Count(b, []byte("#FAIL:"))
+	}
+	for i, st := range cs.Steps {
+		if st.Tunnel {
+			continue // the tunnel flag belongs to filters with a connector; this filter has none
+		}
+		ref := vfRefParse(st.Chunk)
+		expectTrigger := ref != nil
+		if ref != nil {
+			if vfControlHeader(st.Chunk[:ref.idx]) != "" {
+				expectTrigger = false // control-mode framing without a tunnel
+			}
+			tail := st.Chunk[ref.idx:]
+			if len(tail) > 40 {
+				for _, w := range vfFinishedWords {
+					if bytes.Contains(tail[40:], []byte(w)) {
+						expectTrigger = false
+					}
+				}
+			}
+		}
+		idExpect := +1
+		if expectTrigger {
+			idExpect = model.expect(ref.id, cs.Windows)
+		}
+		before := countLines()
+		termBefore := sess.termOut.len()
+		sess.shellOutput(st.Chunk)
+		// a started handler answers within ~150 ms (cleanInput 100 ms + the send); wait a little longer
+		deadline := time.Now().Add(1200 * time.Millisecond)
+		for time.Now().Before(deadline) {
+			if countLines() > before && time.Since(deadline.Add(-1200*time.Millisecond)) > 300*time.Millisecond {
+				break
+			}
+			time.Sleep(5 * time.Millisecond)
+			if !expectTrigger && time.Since(deadline.Add(-1200*time.Millisecond)) > 350*time.Millisecond {
+				break
+			}
+		}
+		time.Sleep(50 * time.Millisecond)
+		n := countLines() - before
+		switch {
+		case !expectTrigger || idExpect == -1:
+			if n != 0 {
+				return fmt.Sprintf("step %d (%s): the filter started %d transfer(s) for %s (reference: none)", i, st.Class, n, vfShort(st.Chunk, 120)), fired
+			}
+			// and it is shown unchanged
+			vfWaitLen(sess.termOut, termBefore+len(st.Chunk), time.Second)
+			if got := sess.termOut.bytes()[termBefore:]; !bytes.Equal(got, st.Chunk) {
+				return fmt.Sprintf("step %d (%s): output that starts no transfer was not shown unchanged: %s -> %s", i, st.Class, vfShort(st.Chunk, 80), vfShort(got, 80)), fired
+			}
+		case idExpect == 0:
+			if n > 1 {
+				return fmt.Sprintf("step %d: %d transfers started by one trigger", i, n), fired
+			}
+			if n == 1 {
+				model.add(ref.id, cs.Windows, true)
+			}
+		default:
+			if n != 1 {
+				return fmt.Sprintf("step %d (%s): a genuine trigger started %d transfers (expected exactly one): %s", i, st.Class, n, vfShort(st.Chunk, 160)), fired
+			}
+			fired++
+			model.add(ref.id, cs.Windows, true)
+			got := sess.termOut.bytes()[termBefore:]
+			if _, t2 := newTrzszDetector(false, false).detectTrzsz(append([]byte(nil), got...), false); t2 != nil {
+				return fmt.Sprintf("step %d: the trigger is shown locally in a form a second wrapper still reacts to: %s", i, vfShort(got, 120)), fired
+			}
+		}
+	}
+	return "", fired
+}
+
+func TestVF_C06Filter(t *testing.T) {
+	c := vfNewCollector("C06", "TestVF_C06Filter")
+	vfCheck(t, c, func(rt *rapid.T) vfC06Case {
+		cs := vfGenC06(rt)
+		cs.Relay = false
+		if len(cs.Steps) > 6 {
+			cs.Steps = cs.Steps[:6]
+		}
+		return cs
+	}, func(cs vfC06Case) string {
+		msg, fired := vfC06FilterRun(cs)
+		labels := []string{"filter_level"}
+		if fired > 0 {
+			labels = append(labels, "filter_started_a_transfer")
+		}
+		c.eval(cs, len(cs.Steps) >= 2 || fired > 0, labels...)
 		return msg
 	})
 }
